@@ -73,6 +73,24 @@ let answer line =
             | GcOutOfFuel -> "fuel" | GcBadOracle -> "bad\t" ^ String.concat " # " (List.rev acc))
          | _ -> failwith ("sub " ^ sub)) in
     id ^ "\t" ^ go (parse_store st) (split_on ' ' subs) []
+  | ["gcl"; id; fuel; sp; limit; st; subs] ->
+    (* regions predicted from layouts: subs = s~e~iter;iter;...   iter = scanlayout/reslayout/reslayout...   layout = k,k,... | . *)
+    let parse_iter it = (match String.split_on_char '/' it with
+      | sc :: rs -> { y_scan = parse_layout sc; y_res = List.map parse_layout rs }
+      | [] -> failwith "iter") in
+    let show_or o = hex_of_key (fst o.o_loc) ^ ":" ^ hex_of_key (snd o.o_loc) ^ ":" ^
+      (match o.o_res with None -> "N" | Some (a, b) -> hex_of_key a ^ ":" ^ hex_of_key b) in
+    let rec go st subs acc accO = match subs with
+      | [] -> "ok\t" ^ String.concat " # " (List.rev acc) ^ "\t" ^ show_store st ^ "\t" ^ String.concat " # " (List.rev accO)
+      | sub :: rest ->
+        (match String.split_on_char '~' sub with
+         | [s; e; its] ->
+           let ys = List.map parse_iter (split_on ';' its) in
+           (match gc_resolve_range_l (nat fuel) (n_of_hex sp) (nat limit) (key_of s) (key_of e) ys st with
+            | (GcOk (st', tr), os) -> go st' rest (show_trace tr :: acc) (String.concat ";" (List.map show_or os) :: accO)
+            | (GcOutOfFuel, _) -> "fuel" | (GcBadOracle, os) -> "bad\t" ^ String.concat ";" (List.map show_or os))
+         | _ -> failwith ("sub " ^ sub)) in
+    id ^ "\t" ^ go (parse_store st) (split_on ' ' subs) [] []
   | ["final"; id; sp; st] -> id ^ "\t" ^ show_store (resolve_all (parse_store st) (n_of_hex sp))
   | ["reads"; id; st; tss] ->
     let st = parse_store st in
